@@ -363,6 +363,24 @@ class Ctx:
     # ------------------------------------------------------------------ REAL / ROUND obligations
     def round_bound(self, o, term, spec, w, K, positive=True, mag=None, assume=None, key=None, mode='ROUND',
                     out_index=0, underflow=False, assume_defined=False, replay=None):
+        o = self._round_bound(o, term, spec, w, K, positive, mag, assume, key, mode, out_index, underflow, assume_defined, replay)
+        if mode == 'ROUND' and K and term is not None and assume is None and o.verdict not in ('discharged', 'violated') and w.n_in:
+            # no verdict (solver unknown, error analysis not applicable): realisation search from a default seed over nine
+            # decades of magnitude.  It can only ever produce a natively reproduced violation, never a discharge.
+            try:
+                rp = replay or self.round_replay(w, spec, K, mag, out_index, positive, wide=True)
+                t = H.NPT[w.in_ty]
+                rep, text = rp([t(0)] * w.n_in)
+            except Exception as e:
+                rep, text = False, 'fallback search failed: %s' % e
+            if rep:
+                o.verdict = 'violated'
+                o.reason = text + ' [found by the default-seed realisation search; solver verdict was: %s]' % (o.reason or '')[:80]
+                o.replay = self.save_case(o, [H.NPT[w.in_ty](0)] * w.n_in, getattr(rp, 'case', {}), [])
+        return o
+
+    def _round_bound(self, o, term, spec, w, K, positive=True, mag=None, assume=None, key=None, mode='ROUND',
+                     out_index=0, underflow=False, assume_defined=False, replay=None):
         """obligation (ROUND): for all real inputs satisfying the assumptions and all admissible rounding errors,
         |impl - spec| <= K * 2^-p * M  where M = |spec| or mag(A, xs).  (REAL): impl == spec exactly.
         spec/mag/assume are functions (A, xs) -> value / value / list of constraints over the Z3Alg."""
@@ -509,7 +527,7 @@ class Ctx:
         rp2.quantize = quant
         self.decide(o_accuracy, [fea.rv(nd.c) > Kc], w, rp2, grid=False)
 
-    def round_replay(self, w, spec, K, mag, out_index, positive):
+    def round_replay(self, w, spec, K, mag, out_index, positive, wide=False):
         """realisation search for one abstract counterexample: the model point rounded into the type, its
         neighbours and power-of-two rescalings are run through the natively compiled wrapper; the error is measured
         exactly (Fractions) in ulps of the reference magnitude."""
@@ -545,7 +563,7 @@ class Ctx:
                     s_ = int(rng.integers(-3, 4))
                     c.append(t(x) * (t(1) + t(s_) * t(2.0) ** t(-(pT - 1 - r_))))
                 cands.append(c)
-            for sc in (1.0, 3.0, 1e-3, 1e3, 7.0, 1e-6, 1e6):
+            for sc in (1.0, 3.0, 1e-3, 1e3, 7.0, 1e-6, 1e6) + ((1e-9, 1e9, 1e-2, 1e2, 1e-5, 1e5, 1e-7, 1e7) if (wide and w.in_ty != 'f32') else ((1e-2, 1e2, 1e-5, 1e5) if wide else ())):
                 for _ in range(6):
                     c = [t(x) * t(sc) * t(1.0 + 0.37 * rng.random()) for x in xs]
                     cands.append(c)
@@ -560,6 +578,8 @@ class Ctx:
                     e, got, E = measure(c)
                 except (ValueError, ZeroDivisionError, OverflowError):
                     continue
+                if wide and (not np.isfinite(got) or got == 0):
+                    continue      # default-seed search: overflow / underflow is outside every claim
                 if e > worst[0]:
                     worst = (e, c, got, E)
                 if e > max(K, 0.5) * 1.0 and e != float('inf'):
